@@ -108,7 +108,7 @@ impl Knobs {
     }
 }
 
-pub const ERR_KINDS: [io::ErrorKind; 10] = [
+pub const ERR_KINDS: [io::ErrorKind; 16] = [
     io::ErrorKind::Interrupted,
     io::ErrorKind::WouldBlock,
     io::ErrorKind::TimedOut,
@@ -119,6 +119,12 @@ pub const ERR_KINDS: [io::ErrorKind; 10] = [
     io::ErrorKind::OutOfMemory,
     io::ErrorKind::Other,
     io::ErrorKind::Unsupported,
+    io::ErrorKind::UnexpectedEof,
+    io::ErrorKind::InvalidInput,
+    io::ErrorKind::InvalidData,
+    io::ErrorKind::NotConnected,
+    io::ErrorKind::PermissionDenied,
+    io::ErrorKind::ConnectionRefused,
 ];
 
 // ---------------------------------------------------------------------------------------------
